@@ -9,7 +9,7 @@ Regenerated from /repo/src (every *.rs file; `#[cfg(test)]` items, `#[cfg(test)]
    or initialiser mentions IceConn / `ice_conn()` / another IceConn-typed name, or a call of a function
    whose return type mentions IceConn such as `ice_conn()`), as
    (file, "Impl::function", callee, receiver text, number of such calls in that function).
-2. `socket_sites` -- every raw socket write (`.send_to(` / `.try_send_to(` / `tcp_write_all(`) with file and
+2. `socket_sites` -- every raw socket write (`.send_to(` / `.try_send_to(` / `.write_all(` / `.try_write(` / `tcp_write_all(`) with file and
    enclosing function (the layer below IceConn: IceConn's own senders and the ICE/STUN/TURN agent).
 3. `ice_conn_uses` -- every `ice_conn()` call with what is done with the result (method name, `bind:<var>`
    or `expr`), so that a new way of getting at the raw connection shows up even if it is not (yet) a send.
@@ -434,7 +434,7 @@ def census():
                 continue
             key = (rel, sc.label(m.start()), m.group(1))
             callers[key] = callers.get(key, 0) + 1
-        for m in re.finditer(r"(?:\.\s*(send_to|try_send_to)|\b(tcp_write_all))\s*\(", s):
+        for m in re.finditer(r"(?:\.\s*(send_to|try_send_to|write_all|try_write|poll_send_to|send_vectored)|\b(tcp_write_all))\s*\(", s):
             # skip the definitions themselves (`fn send_to(`, `fn tcp_write_all(`)
             if re.search(r"\bfn\s+$", s[max(0, m.start() - 8):m.start() + (1 if m.group(1) else 0)].replace(".", " ")):
                 continue
